@@ -147,6 +147,25 @@ theorem C03_command_classification_agrees :
     (∀ t ∈ Py.commandTypes ++ Py.responseTypes, ∃ e ∈ Cxx.classification, e.1 = t) := by
   decide +kernel
 
+/-- **Every declared call form classifies like Python.** The headers declare `IsCommand` / `IsResponse` more than once
+(overloads taking a `MessageType`, a `const MessageHeader&`, ...; the translator lists every declaration it finds and the
+probe calls exactly that overload with an argument of the declared parameter type).  For every declared form and every
+C++ `MessageType` enumerator the result equals membership in the Python set of the function's name; every form covers
+every enumerator; both functions have at least one form. -/
+theorem C03_every_call_form_agrees :
+    (∀ f ∈ Cxx.callForms,
+        (f.1 = nm "IsCommand" ∨ f.1 = nm "IsResponse") ∧
+        (∀ e ∈ f.2.2, e.2 = decide (e.1 ∈ (if f.1 = nm "IsCommand" then Py.commandTypes else Py.responseTypes))) ∧
+        (∀ nv ∈ Cxx.enum_MessageType, ∃ e ∈ f.2.2, e.1 = nv.2)) ∧
+    (∃ f ∈ Cxx.callForms, f.1 = nm "IsCommand") ∧ (∃ f ∈ Cxx.callForms, f.1 = nm "IsResponse") := by
+  decide +kernel
+
+/-- **Nothing in the package modifies the classification tables.** The translator's scan of every module of
+`fusion_engine_client` (aliases followed) finds no statement that modifies `COMMAND_MESSAGES`, `RESPONSE_MESSAGES` or
+the registry dictionaries in place or rebinds them, other than their definitions: the classification observed after
+import (the tables above) is the classification at every later moment of the process. -/
+theorem C03_classification_tables_never_modified : Py.mutationSites = [] := by decide +kernel
+
 /-- **The registry is a bijection preserving type and version.** (1) For every C++ struct declaring
 `MESSAGE_TYPE`/`MESSAGE_VERSION`, exactly one Python `MessagePayload` subclass declares that type; it declares the same
 version and is the class `message_type_to_class` resolves the type to.  (2) For every Python payload class, exactly one
